@@ -219,7 +219,9 @@ class IMAPConnection:
                 try:
                     resp_dec = b64decode(resp_bytes)
                 except binascii.Error as exc:
-                    raise AuthenticationError() from exc
+                    # (a response needs some text: "tag BAD " is malformed)
+                    raise AuthenticationError(
+                        'Invalid authentication response.') from exc
                 else:
                     responses.append(ChallengeResponse(chal.data, resp_dec))
             else:
